@@ -23,7 +23,7 @@
 (***************************************************************************)
 EXTENDS Integers, Sequences, FiniteSets, TLC
 
-CONSTANTS Procs, Decls, SizeOf, Repaired, BytecodeOn, MaxCrashes, MaxSec, InitFiles
+CONSTANTS Procs, Decls, SizeOf, Repaired, BytecodeOn, MaxCrashes, MaxSec, InitFiles, Sequential, Order
 
 VARIABLES file, pyc, clock, proc, crashes
 vars == <<file, pyc, clock, proc, crashes>>
@@ -155,7 +155,11 @@ Crash(p) == /\ proc[p].pc \notin {"done", "crashed"} /\ crashes < MaxCrashes
 Step(p) == Exists(p) \/ Load1(p) \/ RmPyc(p) \/ Mkdirs(p) \/ Open(p) \/ (\E k \in 1..4 : Write(p, k)) \/ Close(p)
            \/ Replace(p) \/ Load2(p) \/ Fallback(p) \/ Install(p)
 
-Next == Tick \/ \E p \in Procs : Step(p) \/ Crash(p)
+\* Sequential: successive definitions, one at a time, in the order given by Order (C15);
+\* otherwise any interleaving (C16)
+MayRun(p) == ~Sequential \/ \A q \in Procs : Order[q] < Order[p] => proc[q].pc \in {"done", "crashed"}
+
+Next == Tick \/ \E p \in Procs : MayRun(p) /\ (Step(p) \/ Crash(p))
 Spec == Init /\ [][Next]_vars
 
 \* ---------------------------------------------------------------- properties
